@@ -66,6 +66,15 @@ CLAIMS = [
              "rendering and computes per-clause non-vacuity.",
      "note": "exhaustive over the discrete safety-relevant settings; remaining settings fixed to loadable values; server-level rows limited to hosts the sandbox can bind",
      "ref": "DESIGN.md section 6 (C18)"},
+    {"id": "C11",
+     "technique": "TLA+ reference semantics (Filter.tla Matches/Select) -> TLC-enumerated filter trees x TLC-generated histories replayed on real HnswBackend / TieredEngine -> TLC trace validation (FilterTrace.tla)",
+     "text": "Matches / Select are transcribed from the property's reference semantics over an abstract value table whose numeric and byte-order ranks "
+             "are computed from concrete adversarial strings; TLC enumerates every filter tree of depth <=1 over the full table and depth <=2 (<=3 "
+             "thorough) over reduced alphabets plus sampled deeper trees, and generates histories (overwrites, metadata merges / replacements, "
+             "deletes, tombstone compaction, recovery, bulk load, drains, filtered deletes). filterlab runs them on the real engine and TLC recomputes "
+             "Select for every recorded ids_for_metadata_filter result, tenant recount and filtered delete.",
+     "note": "3 documents / 2 keys; trees deeper than 3 sampled; single-threaded; the bulk-load stale-mirror defect found by this check is repaired by a fix: commit",
+     "ref": "DESIGN.md section 6 (C11)"},
 ]
 
 _PENDING = "not yet covered by the specification suite in this revision (see DESIGN.md section 11 for the construction order)"
